@@ -202,10 +202,10 @@ def gen_cases(tier, seed):
     from .common import gen_cases_corpus
     from .. import cases as casesmod
     r = random.Random(seed)
-    n = 40 if tier == 'quick' else 600
+    n = 24 if tier == 'quick' else 600
     src = gen_cases_corpus(n, seed, opts={'max_stmts': 6}, with_repo=False)
     snips = [i for i, s in enumerate(casesmod.snippets()) if s['expect'] in ('success', 'trap')]
-    src += [{'src': 'repo', 'idx': i} for i in (r.sample(snips, 40 if tier == 'quick' else len(snips)))]
+    src += [{'src': 'repo', 'idx': i} for i in (r.sample(snips, 24 if tier == 'quick' else len(snips)))]
     r.shuffle(src)
     B = 6
     out = []
@@ -225,8 +225,12 @@ def gen_cases(tier, seed):
         if pl['place'] in ('sub', 'function'):
             pl['steps'] = [s_ for s_ in pl['steps'] if s_['k'] != 'gosub']
         special.append({'src': 'text', 'text': c10.build(pl, random.Random(seed * 7919 + i + 1))[0], 'seed': i, 'scriptv': {}})
-    for i in range(0, len(special), 8):
-        out.append({'batch': special[i:i + 8], 'configs': allc, 'hseed': seed * 37 + i})
+    SB = 4 if tier == 'quick' else 8
+    for i in range(0, len(special), SB):
+        out.append({'batch': special[i:i + SB], 'configs': allc, 'hseed': seed * 37 + i})
+    if tier == 'quick':
+        for c_ in out:
+            c_['quick'] = True
     return out
 
 
@@ -264,6 +268,10 @@ def run_case(case):
              ('clock2038', {'PYTHONHASHSEED': '0'}, VERIF, 2147483000.0, False),
              ('clock-midnight', {'PYTHONHASHSEED': '0'}, VERIF, 1767225599.9, False),
              ('reversed-order', {'PYTHONHASHSEED': '0'}, VERIF, None, False)]
+    if case.get('quick'):
+        # quick tier: other cwd and a fake clock share one child; the thorough tier keeps every condition separate
+        conds = [c_ for c_ in conds if c_[0] in ('hash0', 'hash1', 'hash2', 'hashrandom', 'reversed-order')]
+        conds.append(('cwd-clock2038', {'PYTHONHASHSEED': '0'}, other_cwd, 2147483000.0, False))
     problems = []
     for name, env, cwd, clock, audit in conds:
         j = dict(job)
